@@ -74,6 +74,142 @@ def mk_case(sid, r):
     return x_c12.Case(sid, steps, {"op": op, "args": a})
 
 
+# ---- families beyond the small exhaustive universe (evaluated by the same TLC operators through StrHelpersFile.tla) -------------
+SWEEP = (8, 16, 32, 64, 128, 256, 512, 1024)
+
+
+def euler_bytes():
+    """A sequence over the byte values 1..255 in which every ordered pair (x, y), x = y included, is adjacent exactly once
+    (Eulerian circuit of the complete digraph with loops, Hierholzer)."""
+    n = 255
+    nxt = [0] * (n + 1)            # next unused successor index per node
+    stack, out = [1], []
+    while stack:
+        v = stack[-1]
+        if nxt[v] < n:
+            w = (v - 1 + nxt[v]) % n + 1 if nxt[v] else v      # the loop first, then the others in rotating order
+            nxt[v] += 1
+            stack.append(w)
+        else:
+            out.append(stack.pop())
+    out.reverse()
+    return out
+
+
+def family_texts(rnd, tier):
+    """[(text, alignments, family-name)]"""
+    fam = []
+    # (1) every ordered pair of byte values at every offset mod 8, in buffers of 9..24 bytes
+    eu = euler_bytes()
+    assert len(eu) == 255 * 255 + 1 and len(set(zip(eu, eu[1:]))) == 255 * 255
+    stride = 16 if tier == "quick" else 8
+    lens = list(range(stride + 1, 25))
+    for k in range(8):
+        seq = [65 + k] * k + eu
+        j = 0
+        for w in range(0, len(seq) - 1, stride):
+            L = lens[j % len(lens)]
+            j += 1
+            txt = seq[w:w + L]
+            if len(txt) >= 2:
+                fam.append((txt, (k,), "byte-pairs"))
+    # (2) size sweep: lengths n-1, n, n+1 around the powers of two, and every length of a window behind the usual thresholds
+    #     (all residues mod 16), at all 8 start alignments
+    sizes = set()
+    for n in SWEEP:
+        sizes.update((n - 1, n, n + 1))
+    sizes.update(range(120, 161))
+    sizes.update(range(248, 273))
+    if tier != "quick":
+        sizes.update(range(56, 120))
+        sizes.update(range(161, 301))
+        sizes.update(range(500, 530))
+    pop = [32] * 6 + [9, 10] + list(range(33, 127)) * 2 + [1, 31, 127, 128, 200, 233, 255]
+    for L in sorted(sizes):
+        t = [rnd.choice(pop) for _ in range(L)]
+        if L % 3 == 0:
+            t[0] = 32
+        if L % 4 == 0:
+            t[-1] = 9
+        fam.append((t, tuple(range(8)), "size-sweep"))
+    # (3) every byte value 1..255 as first, inner and last byte
+    for b in range(1, 256):
+        fam.append(([b, 97, 32, b, 32, 98, b], (0, b % 8), "byte-values"))
+    return fam
+
+
+def family_copies():
+    """size sweep for the bounded copies and substr"""
+    out = []
+    for n in SWEEP + (127, 129, 4096):
+        for sl in (n - 2, n - 1, n, n + 1):
+            for pl in (0, 1, n // 2, n - 1, n):
+                if sl >= 0:
+                    out.append({"k": "copy", "size": n, "src": [97 + (i % 26) for i in range(sl)], "pre": [65 + (i % 26) for i in range(pl)]})
+        s = [48 + (i % 75) for i in range(n)]
+        for idx in (0, 1, -1, n - 1, -n, n, -n - 1, n // 2):
+            for cnt in (1, n, n + 1, 0, -1, -n, -n - 1, n // 2):
+                out.append({"k": "substr", "s": s, "idx": idx, "cnt": cnt})
+    return out
+
+
+def families(ctx, exe):
+    import json, os, random
+    rnd = random.Random(ctx.seed)
+    texts = family_texts(rnd, ctx.tier)
+    rows = [{"k": "inplace", "s": t} for t, _, _ in texts] + family_copies()
+    path = os.path.join(ctx.rundir, "cases.ndjson")
+    with open(path, "w") as f:
+        for r in rows:
+            f.write(json.dumps(r, separators=(",", ":")) + "\n")
+    cs = x_c12.CaseStream(ctx, exe, [], keyfn, "families")
+    count = {"EvalFileInPlace": 0, "EvalFileCopy": 0, "EvalFileSubstr": 0}
+    famcount = {}
+
+    def on_case(r):
+        i = r["args"][0]
+        e = r["exp"]
+        row = rows[i - 1]
+        if r["op"] == "inplace":
+            count["EvalFileInPlace"] += 1
+            s, aligns, name = texts[i - 1]
+            famcount[name] = famcount.get(name, 0) + 1
+            cls = "%s,len=%s" % (name, len(s) if len(s) < 25 else (">=128" if len(s) >= 128 else "25..127"))
+            steps = []
+            for a in aligns:
+                for h in ("chomp", "down", "up", "rev"):
+                    steps.append(("al", [h, str(a), tok(s)], tok(e[h]), cls + ",align=%d" % a))
+                steps.append(("al", ["safe", str(a), tok(s), tok(e["ns"])], tok(e["safe"]), cls + ",align=%d" % a))
+            steps.append(("al", ["condense", "0", tok(s)], tok(e["condense"]), cls + ",align=0"))
+            if name != "byte-pairs" and len(ctx.cov["samples"]) < 10 and len(s) in (7, 128, 257):
+                ctx.sample({"family": name, "len": len(s), "alignments": list(aligns), "first_bytes": s[:12], "safe_str_n": e["ns"]})
+            cs.add(x_c12.Case(i, steps, {"family": name, "len": len(s)}))
+        elif r["op"] == "copy":
+            count["EvalFileCopy"] += 1
+            b0 = r["args"][1]
+            size, src = row["size"], row["src"]
+            cat_exp = tok({"buf": e["cat"]["result"], "ret": e["cat"]["ret"]}) if e["cat"]["claimed"] else "*"
+            cls = "size-sweep,size=%d" % size
+            cs.add(x_c12.Case(i, [("strncpy", [str(size), tok(src), tok(b0)], tok({"buf": e["cpy"]["result"], "ret": e["cpy"]["ret"]}), cls),
+                                  ("strncat", [str(size), tok(src), tok(b0)], cat_exp, cls)], {"family": "size-sweep"}))
+        else:
+            count["EvalFileSubstr"] += 1
+            cs.add(x_c12.Case(i, [("substr", [tok(row["s"]), str(row["idx"]), str(row["cnt"])], tok(e["result"]) if e["ok"] else "-",
+                                   "size-sweep,len=%d" % len(row["s"]))], {"family": "size-sweep"}))
+    try:
+        res = x_c12.tlc_cases(ctx, "StrHelpersFile.tla", "StrHelpersFile.cfg", list(count), on_case, coverage=False,
+                              taken=lambda: count, env={"CASES": path})
+    finally:
+        tot = cs.close()
+    if res.ok and (tot["scripts"] != len(rows) or res.edges != len(rows)):
+        raise Broken("families: %d rows, %d evaluated by TLC, %d replayed" % (len(rows), res.edges, tot["scripts"]))
+    ctx.cov["families"] = {"texts_by_family": famcount, "copy_and_substr_size_sweep": count["EvalFileCopy"] + count["EvalFileSubstr"],
+                           "ordered_byte_pairs_covered_at_each_offset_mod_8": 255 * 255,
+                           "note": "every in-place call is preceded by the same call at the same address on different content of the same "
+                                   "length with errno = ERANGE (purity); texts run at the listed start alignments"}
+    ctx.add("distinct_nontrivial", len(rows))
+
+
 def run(ctx):
     exe = harness(ctx)
     cfg = "StrHelpers_quick.cfg" if ctx.tier == "quick" else "StrHelpers_thorough.cfg"
@@ -95,6 +231,7 @@ def run(ctx):
         tot = cs.close()
     if res.ok and tot["scripts"] != res.edges:
         raise Broken("emitted %d cases, replayed %d" % (res.edges, tot["scripts"]))
+    families(ctx, exe)
     import json
     ctx.cov["samples"].sort(key=lambda s: json.dumps(s, sort_keys=True))
     ctx.add("distinct_nontrivial", nontriv[0])
